@@ -119,7 +119,14 @@ func execShape(c Case, raw json.RawMessage) Line {
 		if c.Decoy == 1 {
 			decoy()
 		}
-		canvas.AddField(f)
+		switch c.Add {
+		case 1:
+			canvas.AddFieldParallel(f)
+		case 2:
+			canvas.AddFieldParallel2(f)
+		default:
+			canvas.AddField(f)
+		}
 		if c.Decoy == 2 {
 			decoy()
 		}
